@@ -21,6 +21,7 @@ RULE = (
     "non-trivial = history fills a gap, or has a refused attach, or attaches after a save_load"
     ' Also (added while the seeded-change rounds of DESIGN section 9 ran): Also: nested += lists, module origins (synth file, clone, clone of attached, parent= keyword), flags assigned on attached modules, one project written as an old version, histories on a project that already holds 253-300 modules.'
 )
+RULE += " Rounds 12-14 of DESIGN section 9 added: modules constructed with parent= and index=; MultiCtl.macro with accepted and refused initial values."
 ASSUMPTIONS = [
     "attach_module(None) appends an empty position (as the reader does); empty positions at the end disappear on save/load",
     "after save_load the old module objects are stale handles that still belong to the discarded project object",
